@@ -37,7 +37,7 @@ def plan(tier):
 
 
 def ncases(tier):
-    return 1500 if tier == "quick" else 25000
+    return 5000 if tier == "quick" else 25000
 
 
 def gen_case(rng, i):
